@@ -1,6 +1,6 @@
 From Coq Require Import Reals.
 From Coquelicot Require Import Coquelicot.
-From EP Require Import lib.Base lib.Euler lib.RH gen.Init spec.Restrictions proofs.C20_init.
+From EP Require Import lib.Base lib.Euler lib.RH lib.Euclid gen.Init spec.Restrictions proofs.C20_init.
 Open Scope R_scope.
 
 Theorem noh_guards :
@@ -73,4 +73,18 @@ Theorem cylexp_guards :
          cylexp_doc_ok geometry r_1 r_2 D_CJ_1 D_CJ_2 alpha_1 alpha_2 t_d.
 Proof. exact cylexp_guards_proof. Qed.
 Print Assumptions cylexp_guards.
+
+Theorem ratestick_guards :
+  forall geometry R_ omega_c D_CJ alpha IC r_d t_f xnodes ynodes : R,
+         i_RateStick geometry R_ omega_c D_CJ alpha IC r_d t_f xnodes ynodes <->
+         ratestick_doc_ok geometry R_ omega_c D_CJ alpha IC r_d t_f xnodes ynodes.
+Proof. exact ratestick_guards_proof. Qed.
+Print Assumptions ratestick_guards.
+
+Theorem explosivearc_guards :
+  forall geometry r_1 r_2 omega_in omega_out x_d D_CJ alpha t_f xnodes ynodes : R,
+         i_ExplosiveArc geometry r_1 r_2 omega_in omega_out x_d D_CJ alpha t_f xnodes ynodes <->
+         explosivearc_doc_ok geometry r_1 r_2 omega_in omega_out x_d D_CJ alpha t_f xnodes ynodes.
+Proof. exact explosivearc_guards_proof. Qed.
+Print Assumptions explosivearc_guards.
 
